@@ -594,13 +594,38 @@ func ruleLookupPanics(cx *Ctx) []Obligation {
 			return []Obligation{bad(key, desc, "a normal return yields something other than a handler's result (e.g. a default gate for unknown identifiers): "+v.String(), P.Pos(ret.Pos()))}
 		}
 	}
+	// the patterns are matched against the identifier itself: the language analysis of the registry (own / exclusive
+	// / unsupported templates) describes the lookup only if no rewriting of the identifier precedes the match
+	nMatch := 0
+	for _, b := range fn.Blocks {
+		for _, ins := range b.Instrs {
+			c, ok := ins.(*ssa.Call)
+			if !ok {
+				continue
+			}
+			g := c.Common().StaticCallee()
+			if g == nil || g.Pkg == nil || g.Pkg.Pkg.Path() != "regexp" || len(c.Common().Args) < 2 {
+				continue
+			}
+			switch g.Name() {
+			case "FindStringSubmatch", "MatchString", "FindString", "FindStringSubmatchIndex", "FindStringIndex":
+				nMatch++
+				if c.Common().Args[1] != ssa.Value(fn.Params[0]) {
+					return []Obligation{bad("C18/lookup/matches-raw-id", "the registry patterns are matched against the gate identifier itself (no rewritten or truncated copy)", "the string matched at "+P.Pos(c.Pos())+" is "+c.Common().Args[1].String()+", not the identifier parameter: unanchored patterns then also match identifiers of other gates", P.Pos(c.Pos()))}
+				}
+			}
+		}
+	}
+	if nMatch == 0 {
+		return []Obligation{undecided("C18/lookup/matches-raw-id", "the registry patterns are matched against the gate identifier itself", "no regexp match call found in the lookup")}
+	}
 	// the block after the iteration must refuse
 	for _, b := range fn.Blocks {
 		if strings.Contains(b.Comment, "rangeiter.done") && !fi.Refuse[b.Index] {
 			return []Obligation{bad(key, desc, "falling out of the registry iteration does not panic", P.Pos(fn.Pos()))}
 		}
 	}
-	return []Obligation{good(key, desc, P.FnName(fn)+" "+P.Pos(fn.Pos()))}
+	return []Obligation{good(key, desc, P.FnName(fn)+" "+P.Pos(fn.Pos())), good("C18/lookup/matches-raw-id", "the registry patterns are matched against the gate identifier itself (no rewritten or truncated copy)", P.FnName(fn))}
 }
 
 // (v) parameter flow: capture group → checked numeric parse → tabled field of the constructed gate
